@@ -10,7 +10,7 @@ ENTRIES = [f"FourierFilter.{a}_using_{b}" for a in RSP for b in QSP]
 RULE = ("random physical data (g(r) with r>0, Q[S-1] with Q>0), non-zero uncertainties in 75% of cases, cutoff, material; "
         "every one of the 12 variants is run on the converted inputs and all nine outputs are converted back to (g, Q[S-1]) "
         "and compared with g_using_F; non-trivial = both uncertainties supplied and non-zero")
-DIST = ["lorch", "omitted", "unc"]
+DIST = ["lorch", "omitted", "unc", "qdesc"]
 SHRINK = None
 
 
@@ -22,6 +22,11 @@ def gen(rng, i, tier):
     f, _ = data(rng, q, kind=str(rng.choice(["noise", "smooth"])))
     dg, df = unc(rng, r), unc(rng, q)
     cutoff = float(rng.uniform(r[1], max(r[-1] * 0.6, r[2])))
+    desc = bool(rng.random() < 0.15)
+    if desc:
+        # the same physical data listed from high Q to low Q (time-of-flight order): every variant must still agree
+        q, f = q[::-1].copy(), f[::-1].copy()
+        df = None if df is None else df[::-1].copy()
     kw = material(rng)
     if rng.random() < 0.3:
         kw["lorch"] = True
@@ -29,7 +34,7 @@ def gen(rng, i, tier):
         kw["OmittedXrangeCorrection"] = True
     return dict(r=tolist(r), g=tolist(g), q=tolist(q), f=tolist(f), dg=tolist(dg), df=tolist(df), cutoff=cutoff, kw=kw,
                 lorch=bool(kw.get("lorch")), omitted=bool(kw.get("OmittedXrangeCorrection")),
-                unc=(dg is not None and max(dg) > 0 and df is not None and max(df) > 0))
+                unc=(dg is not None and max(dg) > 0 and df is not None and max(df) > 0), qdesc=desc)
 
 
 def evaluate(case):
